@@ -1,8 +1,10 @@
 //! Generators, censuses, mutators, corpora and the event log. Links no walrus code.
+pub mod census;
 pub mod corpus;
 pub mod gen;
 pub mod log;
 pub mod mspec;
 pub mod ops;
+pub mod optable;
 pub mod rng;
 pub mod workload;
